@@ -84,7 +84,9 @@ def run(report, tier, seed, driver, proofs_ok):
             report.violation("oracle", "second-resolve-raises-" + common.exc_class(e), op={"template": t, "extra": extra}, impl={"message": str(e)[:200]})
             continue
         try:
-            second.append((t, extra, tmpl.model_op(m1, extra), m2 == m1, common.canon(m1.model_dump()["Resources"])))
+            # stability at the level of values (what the model speaks about): dumps equal modulo the typed values re-validation restores
+            value_stable = untyped(common.canon(m2.model_dump()["Resources"])) == untyped(common.canon(m1.model_dump()["Resources"]))
+            second.append((t, extra, tmpl.model_op(m1, extra), value_stable, common.canon(m1.model_dump()["Resources"])))
         except Exception as e:
             report.count("second-pass-op-not-encodable:" + common.exc_class(e))
         if m2 != m1:
@@ -92,7 +94,11 @@ def run(report, tier, seed, driver, proofs_ok):
             diff = first_diff(d1, d2) or first_diff(common.canon(m1.model_dump()), common.canon(m2.model_dump()))
             what = "resolve-is-not-a-fixed-point"
             sub = "other"
-            if diff:
+            if untyped(d1) == untyped(d2) and untyped(common.canon(m1.model_dump())) == untyped(common.canon(m2.model_dump())):
+                # the same values: only the class of a model / the type of a leaf differs (an object no property model accepted
+                # at first is accepted by one once its members are concrete text)
+                sub = "same-values-different-classes-or-leaf-types"
+            elif diff:
                 a, b = diff[1], diff[2]
                 if isinstance(a, str) and isinstance(b, str) and a.lower() == b and a != b:
                     sub = "boolean-looking-text-lowercased-on-second-pass"
